@@ -209,6 +209,13 @@ func (d *DataSource) Load(ctx context.Context, headers http.Header, input []byte
 		return builder.writeErrorBytes(err), nil
 	}
 
+	if alias := d.plan.EntitiesAlias; alias != "" {
+		if entities := root.Get(entityPath); entities != nil {
+			root.Del(entityPath)
+			root.Set(builder.jsonArena, alias, entities)
+		}
+	}
+
 	value := builder.toDataObject(root)
 	return value.MarshalTo(nil), err
 }
